@@ -260,18 +260,21 @@ func firstDiff(a, b []byte) int {
 
 func main() {
 	explore.RegisterEnum("c13", total, eval)
+	explore.RegisterEnum("c13-items", itemsTotal, itemsEval)
 	explore.WorkerMain()
 	c := checkmain.New("C13")
 	if v := c.IsReplay(); v != nil {
 		c.RunReplay(v)
 	}
-	c.Rule = "full grid: item size {0,1,4095,4096,4097,12289} x prior file {absent,shorter,equal,longer} x item writer {1/2/many chunks, error after k bytes for k in {0,1,size/2,size-1,size}, cancelled} x kind {.snp,.seg}; every case is distinct and non-trivial (each exercises Persist once and judges bytes, sync order or residue)"
+	c.Rule = "full grid: item size {0,1,4095,4096,4097,12289} x prior file {absent,shorter,equal,longer} x item writer {1/2/many chunks, error after k bytes for k in {0,1,size/2,size-1,size}, cancelled} x kind {.snp,.seg}; every case is distinct and non-trivial (each exercises Persist once and judges bytes, sync order or residue); plus the item writers bluge itself uses (snapshots of 6 bytes to 6 KB, ice v1/v2 segments, ice v1/v2 mergers) with the storage refusing bytes after k, for every k (items <= 300 bytes) or a structural set of k"
 	c.Explanation = "exhaustive enumeration of the stated grid on the real FileSystemDirectory; os.File.Write and os.File.Sync are observed through an overlay of package os, so 'a flush was issued after the last byte and before success' is decided on the actual call sequence"
 	c.Assumptions = []string{
 		"fsync of the file is what the property demands; durability of the directory entry is not checked",
 		"sizes beyond 3 buffer lengths behave like the ones enumerated",
 	}
 	st := explore.Enumerate(explore.EnumConfig{Name: "c13", InProc: true, MaxViol: 1000})
+	c.AddEnum(st)
+	st = explore.Enumerate(explore.EnumConfig{Name: "c13-items", InProc: true, MaxViol: 1000})
 	c.AddEnum(st)
 	c.Finish()
 }
